@@ -8,7 +8,8 @@
    parameterized types and class field types are decided by the search (sugared module versus hand-expanded module). *)
 From Coq Require Import NArith List Bool.
 Require Import RasnV.Model.Base RasnV.Model.Driver RasnV.Model.Expansion.
-Require RasnV.Proofs.C09 RasnV.Proofs.C09Chain.
+Require RasnV.Proofs.C09 RasnV.Proofs.C09Chain RasnV.Proofs.C09Perm.
+From Coq Require Import Permutation.
 Import ListNotations.
 
 Theorem C09_components_of_step_partial :
@@ -79,3 +80,27 @@ Example C09_pass_acyclic_chain_applies :
   acyclic_chain Proofs.C09Chain.ds_chain Proofs.C09Chain.rank_chain Proofs.C09.nZ /\
   linked_members Proofs.C09Chain.ds_chain Proofs.C09.nZ = Some [Proofs.C09.n_flag; Proofs.C09.n_label; Proofs.C09.n_id].
 Proof. exact Proofs.C09Chain.acyclic_chain_applies. Qed.
+
+(* ... and with the notations at ANY position the pass loses, adds and duplicates nothing: for every chain that is not circular
+   the linked fields are a permutation of the meaning of the notation -- exactly the type's own components followed by what each
+   notation stands for, in the order of the notations.  The known finding C09-components-of-appended is about order only. *)
+Theorem C09_pass_permutation :
+  forall ds (rank : str -> nat),
+    (forall y, rank y <= length ds) ->
+    forall n, NoDup (map t_name ds) -> any_chain ds rank n ->
+    exists l e, linked_members ds n = Some l /\ expanded_members ds n = Some e /\ Permutation e l.
+Proof. exact Proofs.C09Perm.link_pass_permutation. Qed.
+
+Theorem C09_pass_appended_exactly :
+  forall ds (rank : str -> nat),
+    (forall y, rank y <= length ds) ->
+    forall n d, NoDup (map t_name ds) -> any_chain ds rank n -> find_def n ds = Some d ->
+    linked_members ds n = Some (appended (length ds) ds (t_is_seq d) (t_items d)).
+Proof. exact Proofs.C09Perm.link_pass_appended. Qed.
+
+Example C09_pass_permutation_applies :
+  NoDup (map t_name Proofs.C09Perm.ds_front) /\ (forall y, Proofs.C09Perm.rank_front y <= length Proofs.C09Perm.ds_front) /\
+  any_chain Proofs.C09Perm.ds_front Proofs.C09Perm.rank_front Proofs.C09.nT /\
+  linked_members Proofs.C09Perm.ds_front Proofs.C09.nT = Some [Proofs.C09.ne; Proofs.C09.na] /\
+  expanded_members Proofs.C09Perm.ds_front Proofs.C09.nT = Some [Proofs.C09.na; Proofs.C09.ne].
+Proof. exact Proofs.C09Perm.permutation_applies. Qed.
